@@ -25,6 +25,59 @@ from .pipe_common import render, evaluate
 DATA_W = {'.byte': 1, '.2byte': 2, '.4byte': 4, '.8byte': 8}
 
 
+# Reference arithmetic is over the integers; all quantities are far below 2^(W-1).  Comparisons of two terms whose
+# difference is a constant (same symbolic base) are therefore decided here instead of being left to the bit-vector
+# solver, which cannot use "no wrap-around" when simplifying.
+def _diff(a, b):
+    d = z3.simplify(a - b)
+    return d.as_signed_long() if z3.is_bv_value(d) else None
+
+
+def LE(a, b):
+    d = _diff(b, a)
+    return z3.BoolVal(d >= 0) if d is not None else a <= b
+
+
+def LT(a, b):
+    d = _diff(b, a)
+    return z3.BoolVal(d > 0) if d is not None else a < b
+
+
+def GE(a, b):
+    return LE(b, a)
+
+
+def GT(a, b):
+    return LT(b, a)
+
+
+def EQ(a, b):
+    d = _diff(a, b)
+    return z3.BoolVal(d == 0) if d is not None else a == b
+
+
+def AND(*xs):
+    xs = [x for x in xs if not z3.is_true(x)]
+    if any(z3.is_false(x) for x in xs):
+        return z3.BoolVal(False)
+    return z3.And(*xs) if xs else z3.BoolVal(True)
+
+
+def OR(*xs):
+    xs = [x for x in xs if not z3.is_false(x)]
+    if any(z3.is_true(x) for x in xs):
+        return z3.BoolVal(True)
+    return z3.Or(*xs) if xs else z3.BoolVal(False)
+
+
+def ITE(c, a, b):
+    if z3.is_true(c):
+        return a
+    if z3.is_false(c):
+        return b
+    return z3.If(c, a, b)
+
+
 # ------------------------------------------------------------------------------------------------
 # rendering
 # ------------------------------------------------------------------------------------------------
@@ -150,7 +203,7 @@ class Ref:
             return evaluate(st[1], self.env, self.labels)
         if k == 'zerountil':
             t = evaluate(st[1], self.env, self.labels)
-            return z3.If(t >= addr, t - addr + E.bvval(1), E.bvval(0))
+            return ITE(GE(t, addr), t - addr + E.bvval(1), E.bvval(0))
         if k == 'instr':
             return E.bvval({'nop': 1, 'nib': 1, 'ld8': 2, 'ld16': 3}[st[1]])
         return E.bvval(0)
@@ -245,7 +298,7 @@ class Ref:
                     else:
                         zone = 'GLOBAL'
                     z = self.zones[zone]
-                    self.illegal.append(z3.Or(val < g[0], val > g[1], val < z[0], val > z[1]))
+                    self.illegal.append(OR(LT(val, g[0]), GT(val, g[1]), LT(val, z[0]), GT(val, z[1])))
                     self.cursor[zone] = val
                     r.zone, r.addr, r.size = zone, val, E.bvval(0)
                     self.recs.append(r)
@@ -284,8 +337,8 @@ class Ref:
         for r in self.byte_recs(include_muted=True):
             z = self.zones[r.zone]
             last = r.addr + r.size - E.bvval(1)
-            cs.append(z3.Or(r.size <= 0, z3.And(r.addr >= z[0], last <= z[1], r.addr >= g[0], last <= g[1])))
-        return z3.And(*cs) if cs else z3.BoolVal(True)
+            cs.append(OR(LE(r.size, E.bvval(0)), AND(GE(r.addr, z[0]), LE(last, z[1]), GE(r.addr, g[0]), LE(last, g[1]))))
+        return AND(*cs)
 
     def strictly_legal(self):
         """Sufficient condition for 'nothing leaves its zone': every assembled line *starts* inside its zone and
@@ -296,9 +349,9 @@ class Ref:
             if r.kind == 'predef':
                 continue
             z = self.zones[r.zone]
-            cs.append(z3.And(r.size >= 0, r.addr >= z[0], r.addr <= z[1], r.addr + r.size <= z[1] + E.bvval(1),
-                             r.addr >= g[0], r.addr + r.size <= g[1] + E.bvval(1)))
-        return z3.And(*cs) if cs else z3.BoolVal(True)
+            cs.append(AND(GE(r.size, E.bvval(0)), GE(r.addr, z[0]), LE(r.addr, z[1]), LE(r.addr + r.size, z[1] + E.bvval(1)),
+                          GE(r.addr, g[0]), LE(r.addr + r.size, g[1] + E.bvval(1))))
+        return AND(*cs)
 
     def overlap(self, include_muted=False):
         rs = self.byte_recs(include_muted)
@@ -306,8 +359,8 @@ class Ref:
         for i in range(len(rs)):
             for j in range(i + 1, len(rs)):
                 a, b = rs[i], rs[j]
-                cs.append(z3.And(a.size > 0, b.size > 0, a.addr < b.addr + b.size, b.addr < a.addr + a.size))
-        return z3.Or(*cs) if cs else z3.BoolVal(False)
+                cs.append(AND(GT(a.size, E.bvval(0)), GT(b.size, E.bvval(0)), LT(a.addr, b.addr + b.size), LT(b.addr, a.addr + a.size)))
+        return OR(*cs)
 
     def max_emitted(self):
         """(exists, highest address that received an emitted byte)"""
@@ -315,24 +368,26 @@ class Ref:
         ex = z3.BoolVal(False)
         mx = E.bvval(0)
         for r in rs:
-            has = r.size > 0
+            has = GT(r.size, E.bvval(0))
             last = r.addr + r.size - E.bvval(1)
-            mx = z3.If(has, z3.If(z3.And(ex, mx > last), mx, last), mx)
-            ex = z3.Or(ex, has)
+            mx = ITE(has, ITE(AND(ex, GT(mx, last)), mx, last), mx)
+            ex = OR(ex, has)
         return ex, mx
 
     def mem_at(self, a, fill):
         """Byte of the memory map at address term `a` (fill where no unmuted line emitted)."""
         res = zv(fill) & E.bvval(0xff)
         for r in reversed(self.byte_recs()):
-            inside = z3.And(r.size > 0, a >= r.addr, a < r.addr + r.size)
+            inside = AND(GT(r.size, E.bvval(0)), GE(a, r.addr), LT(a, r.addr + r.size))
+            if z3.is_false(inside):
+                continue
             if r.seg[0] == 'rep':
                 val = r.seg[2]
             else:
                 val = E.bvval(0)
                 for j, b in enumerate(r.seg[1]):
-                    val = z3.If(a - r.addr == E.bvval(j), b, val)
-            res = z3.If(inside, val, res)
+                    val = ITE(EQ(a - r.addr, E.bvval(j)), b, val)
+            res = ITE(inside, val, res)
         return res
 
     def image_ok(self, image, start, end, fill):
@@ -340,12 +395,12 @@ class Ref:
         start = zv(start)
         ex, mx = self.max_emitted()
         if end is None:
-            n = z3.If(z3.And(ex, mx >= start), mx - start + E.bvval(1), E.bvval(0))
+            n = ITE(AND(ex, GE(mx, start)), mx - start + E.bvval(1), E.bvval(0))
         else:
-            n = z3.If(zv(end) >= start, zv(end) - start + E.bvval(1), E.bvval(0))
+            n = ITE(GE(zv(end), start), zv(end) - start + E.bvval(1), E.bvval(0))
         if image is None:
             return z3.BoolVal(False)
-        cs = [E.bvval(len(image)) == n]
+        cs = [EQ(E.bvval(len(image)), n)]
         for o, b in enumerate(image):
             cs.append(zv(b) & E.bvval(0xff) == self.mem_at(start + E.bvval(o), fill))
-        return z3.And(*cs)
+        return AND(*cs)
